@@ -75,6 +75,25 @@ func (s *vstore) UpdateEntry(ctx context.Context, e *filer.Entry) error {
 	return s.FilerStore.UpdateEntry(ctx, e)
 }
 
+// A create by another client that arrives while a rename runs, made deterministic (op renamelate): when the store-level
+// DeleteEntry of lateTrig has been carried out, lateEntry is inserted into the store - once - exactly as the second
+// client's CreateEntry would do at that moment.
+var lateTrig string
+var lateEntry *filer.Entry
+var lateDone bool // the create was carried out (reported as late=1: the judge asks for the entry only then)
+
+func afterStoreDelete(s *vstore, p util.FullPath) {
+	if lateEntry == nil || s.prefix+string(p) != lateTrig {
+		return
+	}
+	e := *lateEntry
+	lateEntry = nil
+	lateDone = true
+	ls, q := storeFor(string(e.FullPath))
+	e.FullPath = q
+	ls.InsertEntry(ctx, &e)
+}
+
 var (
 	tr    *hx.Trace
 	st    *vstore // default store
@@ -428,11 +447,26 @@ func exec(w []string) string {
 			}
 			return "ok"
 		})
+	case "renamelate": // src dst trig late tag chunks : rename src dst; the file `late` is created right after the store delete of `trig`
+		res = run(func() string {
+			lateTrig, lateEntry, lateDone = arg(2), mkEntry(arg(3), "f", atoi(arg(4)), arg(5), 0, 0), false
+			defer func() { lateEntry = nil }()
+			od, on := splitPath(arg(0))
+			nd, nn := splitPath(arg(1))
+			_, err := fsrv.AtomicRenameEntry(ctx, &filer_pb.AtomicRenameEntryRequest{OldDirectory: od, OldName: on, NewDirectory: nd, NewName: nn})
+			if err != nil {
+				return "err"
+			}
+			return "ok"
+		})
 	default:
 		fmt.Fprintln(os.Stderr, "c18: unknown op", op)
 		os.Exit(2)
 	}
 	outs := []string{res, "q=" + idsTok(emitQ), "d=" + idsTok(emitD)}
+	if op == "renamelate" {
+		outs = append(outs, "late="+hx.B(lateDone))
+	}
 	if res == "diverge" || res == "panic" {
 		// the store holds a half-made, arbitrarily deep tree; the case ends here
 		tr.Op(op, a, outs)
@@ -726,6 +760,21 @@ func (g *gen) wideCase() {
 		}
 	}
 	exec([]string{"delete", "/w", "1", "0", "1"})
+}
+
+// lateCases: a file is created in the folder being renamed after the rename listed it (first child moved / last child
+// moved / source in the path-specific store): nothing may be lost whatever the rename answers
+func (g *gen) lateCases() {
+	for _, c := range [][]string{
+		{"/a/b", "/e", "/a/b/c", "/a/b/late"},
+		{"/a/b", "/a/e", "/a/b/x", "/a/b/late"},
+		{"/b/c", "/a/z", "/b/c/c", "/b/c/late"},
+	} {
+		g.reset()
+		exec([]string{"create", c[0] + "/c", "f", "3", g.fresh(), "0", "0", "0"})
+		exec([]string{"create", c[0] + "/x", "f", "4", g.fresh(), "0", "0", "0"})
+		exec([]string{"renamelate", c[0], c[1], c[2], c[3], "9", g.fresh()})
+	}
 }
 
 func main() {
